@@ -283,6 +283,56 @@ def task_scenarios(t):
             for v in vs:
                 v.case = {'scenario': ['storm']}
             out.extend(vs)
+        elif kind == 'histories':
+            # stateful abuse: every sequence of <= 2 well-formed but awkward requests by a registered hostile client,
+            # followed by an abrupt close while their effects (pending replies, queued names, rules) are outstanding
+            H_OPS = ['call-self', 'call-own-name', 'call-B', 'own-name', 'queue-behind-B', 'add-rule', 'call-B-noreply', 'reply-unrequested', 'call-self-twice-same-serial']
+            for seq in t[1]:
+                vs = []
+                h = arena.new_hostile('registered')
+                c = arena.slots[h]
+                hn = arena.uname[h]
+                for oi in seq:
+                    o = H_OPS[oi]
+                    sr = arena.bus.next_serial(c)
+                    if o == 'call-self':
+                        m = R.method_call(sr, hn, '/h', 'h.i', 'Self', [R.S('x')])
+                    elif o == 'call-self-twice-same-serial':
+                        m = R.method_call(4242, hn, '/h', 'h.i', 'Self', [R.S('x')])
+                    elif o == 'call-own-name':
+                        arena.bus.send(c, R.encode_message(R.bus_call(sr, 'RequestName', [R.S('com.example.H'), R.U(0)])))
+                        m = R.method_call(arena.bus.next_serial(c), b'com.example.H', '/h', 'h.i', 'Self', [R.S('x')])
+                    elif o == 'call-B':
+                        m = R.method_call(sr, arena.uname['B'], '/h', 'h.i', 'ToB', [R.S('x')])
+                    elif o == 'call-B-noreply':
+                        m = R.method_call(sr, arena.uname['B'], '/h', 'h.i', 'ToB', [R.S('x')], flags=1)
+                    elif o == 'own-name':
+                        m = R.bus_call(sr, 'RequestName', [R.S('com.example.H2'), R.U(1)])
+                    elif o == 'queue-behind-B':
+                        arena.method('B', 'RequestName', [R.S('com.example.BQ'), R.U(0)])
+                        m = R.bus_call(sr, 'RequestName', [R.S('com.example.BQ'), R.U(0)])
+                    elif o == 'add-rule':
+                        m = R.bus_call(sr, 'AddMatch', [R.S("type='signal',sender='" + arena.uname['B'].decode() + "'")])
+                    else:
+                        m = R.method_return(sr, 777, arena.uname['B'], [R.S('unrequested')])
+                    arena.bus.send(c, R.encode_message(m))
+                arena.bus.pump()
+                arena.close_slot(h)
+                arena.method('B', 'ReleaseName', [R.S('com.example.BQ')])
+                for l in ('A', 'B', 'M'):
+                    arena.take(l)
+                desc = 'history %r then close' % ([H_OPS[i] for i in seq],)
+                arena.round_trip(vs, desc)
+                for l in ('A', 'B', 'M'):
+                    arena.take(l)
+                if not vs:
+                    arena.restored(vs, desc)
+                n += 1
+                for v in vs:
+                    v.case = {'scenario': ['histories', [list(seq)]]}
+                out.extend(vs)
+                if vs:
+                    arena = Arena()
         elif kind == 'flood':
             h = arena.new_hostile('registered')
             c = arena.slots[h]
@@ -327,7 +377,8 @@ def build_tasks(tier):
         muts = list(gen.single_site_corruptions(data, rich=not quick))
         if quick:
             # every offset is still hit: thin the replacement values, keep all length-word / truncation / extension cases
-            muts = [x for i, x in enumerate(muts) if not x[0].startswith('byte@') or i % 3 == 0]
+            muts = [x for i, x in enumerate(muts) if not (x[0].startswith('byte@') or x[0].startswith('utf8@')) or i % 3 == 0]
+            muts = [x for i, x in enumerate(muts) if not x[0].startswith('utf8@') or i % 4 == 0]
         for d2, b2 in muts:
             steps.append(('%s:%s' % (label, d2), 'registered', 'silence', b2.hex()))
             if d2.startswith('trunc@'):
@@ -338,16 +389,23 @@ def build_tasks(tier):
         for d2, b2 in muts[::97]:
             steps.append(('%s:%s' % (label, d2), 'nohello', 'silence', b2.hex()))
             steps.append(('%s:%s' % (label, d2), 'raw', 'close', b2.hex()))
+    mut_tasks = []
     for i in range(0, len(steps), 400):
-        tasks.append((task_mutations, steps[i:i + 400]))
+        mut_tasks.append((task_mutations, steps[i:i + 400]))
     seqs = [(i,) for i in range(len(SASL))] + list(itertools.product(range(len(SASL)), repeat=2))
     if not quick:
         seqs += list(itertools.product(range(len(SASL) - 4), repeat=3))
     for i in range(0, len(seqs), 40):
         tasks.append((task_scenarios, ('sasl', seqs[i:i + 40])))
     tasks.append((task_scenarios, ('oversize', [1 << 20, (1 << 20) + 1, 1 << 26, (1 << 27) - 8, 1 << 27, 0x7fffffff, 0xffffffff])))
+    hseqs = [(i,) for i in range(9)] + list(itertools.product(range(9), repeat=2))
+    if not quick:
+        hseqs += list(itertools.product(range(9), repeat=3))
+    for i in range(0, len(hseqs), 15):
+        tasks.append((task_scenarios, ('histories', hseqs[i:i + 15])))
     tasks.append((task_scenarios, ('storm',)))
     tasks.append((task_scenarios, ('flood', 200 if quick else 2000)))
+    tasks += mut_tasks          # the scripted scenarios first, then the (much larger) mutation product
     return tasks, len(steps), len(seqs)
 
 
@@ -391,6 +449,6 @@ def replay(case):
         return [Violation.from_json(v) for v in r['viol']]
     if 'scenario' in case:
         sc = case['scenario']
-        r = task_scenarios(tuple(sc) if sc[0] != 'sasl' else ('sasl', [tuple(x) for x in sc[1]]))
+        r = task_scenarios(tuple(sc) if sc[0] not in ('sasl', 'histories') else (sc[0], [tuple(x) for x in sc[1]]))
         return [Violation.from_json(v) for v in r['viol']]
     return []
